@@ -785,4 +785,156 @@ Section Refine.
     assert (Hj : pjson_of S o name m = Some (pj_json p)) by (unfold pjson_of; rewrite Hp, Hf; reflexivity).
     split; [exact Hj|]. exact (pjson_prints_valid_pf S o name m (pj_json p) HS Hb Hj).
   Qed.
+
+  (* ---------------------------------------------------------------- unknown records after the declared fields
+     (where every encoder puts what it does not know): skipped, or the conversion fails under DisallowUnknownField *)
+  Definition unknown_rec (md : mdesc) (f : wfield) : bool :=
+    wf_wfield f && match find_field md (fst f) with None => true | Some _ => false end.
+
+  Lemma unknown_tail_skipped : forall d md u, o_disallow_unknown o = false -> forallb (unknown_rec md) u = true ->
+    forall fuel comma, (length (wenc u) < fuel)%nat -> walk_fields f64_lex o (wm d) fuel md comma (wenc u) = Some [].
+  Proof.
+    intros d md u Hdis. induction u as [|f u IH]; intros Hall fuel comma Hfuel.
+    - destruct fuel; reflexivity.
+    - cbn [forallb] in Hall. apply andb_true_iff in Hall as [Hf Hall]. unfold unknown_rec in Hf.
+      apply andb_true_iff in Hf as [Hwf Hnone]. destruct (find_field md (fst f)) eqn:Efind; [discriminate|].
+      rewrite wenc_cons in Hfuel |- *.
+      destruct (nonempty_field_app f (wenc u)) as [b [tl E]].
+      destruct fuel as [|fu]; [rewrite E in Hfuel; cbn in Hfuel; lia|].
+      rewrite E. cbn [walk_fields]. rewrite <- E. rewrite (rd_tag_field _ _ Hwf), Efind, Hdis.
+      unfold skip_val.
+      assert (Hwt : (wt_of_wval (snd f) =? 0) || (wt_of_wval (snd f) =? 1) || (wt_of_wval (snd f) =? 2) || (wt_of_wval (snd f) =? 5) = true)
+        by (destruct (snd f); reflexivity).
+      rewrite Hwt. unfold wf_wfield in Hwf. apply andb_true_iff in Hwf as [_ Hwv].
+      rewrite (wdec_val_enc _ _ Hwv). apply IH; [exact Hall|].
+      rewrite app_length in Hfuel. destruct (wenc_field_cons f) as [b' [t' E']]. rewrite E' in Hfuel. cbn [length] in Hfuel. lia.
+  Qed.
+
+  Lemma unknown_head_refused : forall d md f u fuel comma, o_disallow_unknown o = true -> unknown_rec md f = true ->
+    (length (wenc (f :: u)) < fuel)%nat -> walk_fields f64_lex o (wm d) fuel md comma (wenc (f :: u)) = None.
+  Proof.
+    intros d md f u fuel comma Hdis Hf Hfuel. unfold unknown_rec in Hf.
+    apply andb_true_iff in Hf as [Hwf Hnone]. destruct (find_field md (fst f)) eqn:Efind; [discriminate|].
+    rewrite wenc_cons in Hfuel |- *.
+    destruct (nonempty_field_app f (wenc u)) as [b [tl E]].
+    destruct fuel as [|fu]; [rewrite E in Hfuel; cbn in Hfuel; lia|].
+    rewrite E. cbn [walk_fields]. rewrite <- E. rewrite (rd_tag_field _ _ Hwf), Efind, Hdis. reflexivity.
+  Qed.
+
+  Lemma unknown_stops : forall md n fd u, find_field md n = Some fd -> forallb (unknown_rec md) u = true -> stops n (wenc u).
+  Proof.
+    intros md n fd u Hfind Hall. destruct u as [|f u]; [left; reflexivity|]. right.
+    cbn [forallb] in Hall. apply andb_true_iff in Hall as [Hf _]. unfold unknown_rec in Hf.
+    apply andb_true_iff in Hf as [Hwf Hnone].
+    exists (fst f), (wt_of_wval (snd f)), (wenc_val (snd f) ++ wenc u). rewrite wenc_cons.
+    split; [apply rd_tag_field; exact Hwf|]. intros Heq. rewrite Heq, Hfind in Hnone. discriminate.
+  Qed.
+
+  (* the message loop over the declared fields followed by a tail X that the loop turns into [tailres] *)
+  Lemma fields_tail_ok : forall d md X tailres,
+    (forall n fd, find_field md n = Some fd -> stops n X) ->
+    (forall fuel comma, (length X < fuel)%nat -> walk_fields f64_lex o (wm d) fuel md comma X = tailres) ->
+    forall fs ms,
+    Forall2 (fun nv m => match find_field md (fst nv) with
+                         | Some fd => option_map (fun p => (fd_json fd, p)) (pj_fld S o (fd_label fd) (fd_type fd) (snd nv))
+                         | None => None
+                         end = Some m) fs ms ->
+    (forall nv, In nv fs -> P (snd nv)) ->
+    nodupb Z.eqb (map fst fs) = true ->
+    (forall nv, In nv fs -> fld_ok md nv) ->
+    (forall nv, In nv fs -> pval_bytes_okb (snd nv) = true) ->
+    (forall nv, In nv fs -> (depth (snd nv) <= d)%nat) ->
+    forall fuel comma, (length (wenc (msg_wire fs) ++ X) < fuel)%nat ->
+    walk_fields f64_lex o (wm d) fuel md comma (wenc (msg_wire fs) ++ X) =
+    if forallb (fun m => pj_finite (snd m)) ms
+    then match tailres with Some tl => Some (sep_join comma (map mtext ms) ++ tl) | None => None end
+    else None.
+  Proof.
+    intros d md X tailres HstopX HX fs ms HF.
+    induction HF as [|[n v] m fs ms Hrel _ IH]; intros HP Hnd Hok Hb Hd fuel comma Hfuel.
+    - cbn [msg_wire flat_map wenc app forallb map sep_join] in *. rewrite (HX fuel comma Hfuel).
+      destruct tailres; reflexivity.
+    - destruct (Hok (n, v) (or_introl eq_refl)) as (fd & Hfind & Hn & Hwf). cbn [fst snd] in *.
+      rewrite Hfind in Hrel.
+      destruct (pj_fld S o (fd_label fd) (fd_type fd) v) as [p|] eqn:Hp; [|discriminate Hrel].
+      inversion Hrel; subst m. clear Hrel.
+      destruct (fld_records md (n, v) (Hok _ (or_introl eq_refl))) as (w & ws & Efv & Ew & Hwfw). cbn [fst snd] in *.
+      assert (Ebody : wenc (msg_wire ((n, v) :: fs)) ++ X =
+                      wenc_field (n, w) ++ (wenc (map (pair n) ws) ++ (wenc (msg_wire fs) ++ X))).
+      { unfold msg_wire. cbn [flat_map fst snd]. rewrite Ew. fold (msg_wire fs).
+        change (((n, w) :: map (pair n) ws) ++ msg_wire fs) with ((n, w) :: (map (pair n) ws ++ msg_wire fs)).
+        rewrite wenc_cons, wenc_app, <- !app_assoc. reflexivity. }
+      rewrite Ebody in Hfuel |- *.
+      destruct (nonempty_field_app (n, w) (wenc (map (pair n) ws) ++ (wenc (msg_wire fs) ++ X))) as [b [tl E]].
+      destruct fuel as [|f]; [rewrite E in Hfuel; cbn in Hfuel; lia|].
+      rewrite E. cbn [walk_fields]. rewrite <- E.
+      rewrite (rd_tag_field _ _ Hwfw). cbn [fst snd]. rewrite Hfind.
+      rewrite walk_field_lbl, (find_field_num _ _ _ Hfind).
+      assert (Hst : fd_label fd = LSingular \/ stops n (wenc (msg_wire fs) ++ X)).
+      { right. destruct fs as [|nv' fs'].
+        - cbn [msg_wire flat_map wenc app]. exact (HstopX n fd Hfind).
+        - right. destruct nv' as [n'' v''].
+          destruct (fld_records md (n'', v'') (Hok _ (or_intror (or_introl eq_refl)))) as (w' & ws' & _ & Ew' & Hwf').
+          cbn [fst snd] in Ew', Hwf'. exists n'', (wt_of_wval w'),
+            (wenc_val w' ++ wenc (map (pair n'') ws' ++ msg_wire fs') ++ X).
+          split.
+          + unfold msg_wire. cbn [flat_map fst snd]. rewrite Ew'. fold (msg_wire fs'). cbn [app]. rewrite wenc_cons, <- app_assoc.
+            rewrite (rd_tag_field _ _ Hwf'). reflexivity.
+          + cbn [map fst] in Hnd. exact (proj1 (nodupb_head _ _ _ Hnd)). }
+      pose proof (HP (n, v) (or_introl eq_refl) d (fd_label fd) (fd_type fd) n p (wenc (msg_wire fs) ++ X) Hwf
+                    (Hb _ (or_introl eq_refl)) Hp (Hd _ (or_introl eq_refl)) Hn Hst) as Hv.
+      cbn [snd] in Hv. rewrite Efv in Hv. rewrite Hv. unfold res.
+      cbn [forallb snd]. destruct (pj_finite p); [|reflexivity]. cbn [andb].
+      assert (Hnd' : nodupb Z.eqb (map fst fs) = true).
+      { cbn [map nodupb fst] in Hnd. apply andb_true_iff in Hnd as [_ Hnd]. exact Hnd. }
+      rewrite (IH (fun nv H => HP nv (or_intror H)) Hnd' (fun nv H => Hok nv (or_intror H))
+                  (fun nv H => Hb nv (or_intror H)) (fun nv H => Hd nv (or_intror H)) f true).
+      + destruct (forallb (fun m => pj_finite (snd m)) ms); [|reflexivity].
+        destruct tailres as [tr|]; [|reflexivity].
+        cbn [map sep_join].
+        change (mtext (fd_json fd, p)) with (quote_ref (fd_json fd) ++ 58 :: json_print (pj_json p)).
+        repeat (rewrite <- ?app_assoc; cbn [app]). reflexivity.
+      + rewrite app_length in Hfuel. destruct (wenc_field_cons (n, w)) as [b' [t' E']].
+        rewrite E' in Hfuel. cbn [length] in Hfuel. rewrite app_length in Hfuel. lia.
+  Qed.
+
+  Theorem walk_unknown_tail : forall name md m u fuel p,
+    find_msg S name = Some md ->
+    wf_msg S name m = true -> pval_bytes_okb (VMsg m) = true -> (depth (VMsg m) <= fuel)%nat ->
+    pj_of S o name m = Some p -> forallb (unknown_rec md) u = true ->
+    p2j_walk fuel o S name (encode_msg m ++ wenc u) =
+    if o_disallow_unknown o && negb (match u with [] => true | _ => false end) then None
+    else if pj_finite p then Some (json_print (pj_json p)) else None.
+  Proof.
+    intros name md m u fuel p Hm Hwf Hb Hd Hp Hu.
+    unfold wf_msg in Hwf. cbn [wf_fld] in Hwf. rewrite Hm in Hwf.
+    apply andb_true_iff in Hwf as [Hwf Hall]. apply andb_true_iff in Hwf as [Hnd Hlen].
+    unfold pj_of in Hp. cbn [pj_fld] in Hp. rewrite Hm in Hp.
+    match type of Hp with option_map _ ?x = _ => destruct x as [ms|] eqn:E; [|discriminate] end.
+    inversion Hp; subst p. clear Hp. apply seq_opt_Forall2 in E.
+    cbn [pval_bytes_okb] in Hb. rewrite forallb_forall in Hb.
+    cbn [depth] in Hd. destruct fuel as [|d']; [lia|].
+    assert (Hdep : forall nv, In nv m -> (depth (snd nv) <= d')%nat).
+    { intros nv Hx. pose proof (fold_max_ge (fun nv => depth (snd nv)) m nv Hx). cbn beta in H. lia. }
+    unfold p2j_walk, p2j_walk_gen. cbn [walk_msg]. unfold walk_body. rewrite Hm. unfold encode_msg.
+    set (tailres := if o_disallow_unknown o && negb (match u with [] => true | _ => false end) then None else Some (@nil Z)).
+    rewrite (fields_tail_ok d' md (wenc u) tailres) with (ms := ms).
+    - cbn [pj_finite]. unfold tailres.
+      destruct (o_disallow_unknown o) eqn:Hdis; destruct u as [|f u']; cbn [andb negb];
+        destruct (forallb (fun m0 => pj_finite (snd m0)) ms); try reflexivity;
+        unfold ptext; cbn [pj_json]; rewrite print_obj, sep_join_false, map_map, app_nil_r; reflexivity.
+    - intros n fd Hfind. exact (unknown_stops md n fd u Hfind Hu).
+    - intros fu comma Hfu. unfold tailres. destruct (o_disallow_unknown o) eqn:Hdis.
+      + destruct u as [|f u']; cbn [andb negb].
+        * destruct fu; reflexivity.
+        * cbn [forallb] in Hu. apply andb_true_iff in Hu as [Hf _]. apply unknown_head_refused; assumption.
+      + cbn [andb]. apply unknown_tail_skipped; assumption.
+    - exact E.
+    - intros nv Hnv. apply P_all.
+    - exact Hnd.
+    - exact (msg_fld_ok md m Hall).
+    - exact Hb.
+    - exact Hdep.
+    - lia.
+  Qed.
 End Refine.
